@@ -25,8 +25,19 @@ def main():
   head = subprocess.run(['git', '-C', repo, 'rev-parse', 'HEAD'],
                         stdout=subprocess.PIPE, text=True).stdout.strip()
   inv = {'__reference__': {'commit': head}, **inv}
-  json.dump(inv, open(os.path.join(VERIF, 'tflsa', 'inventory.json'), 'w'),
-            indent=0, sort_keys=True)
+  out = os.path.join(VERIF, 'tflsa', 'inventory.json')
+  json.dump(inv, open(out, 'w'), indent=0, sort_keys=True)
+  # second phase: the normal form of every reference function (needs the
+  # locals / returns written above)
+  inline._INV = None
+  from tflsa.model import Program
+  prog = Program(repo)
+  for mname, mod in prog.modules.items():
+    for q, (f, _, _) in inline.function_table(mod.tree).items():
+      if q in inv.get(mname, {}):
+        inv[mname][q]['flat'] = inline.flat_form(f)
+  json.dump(inv, open(out, 'w'), indent=0, sort_keys=True)
+  inline._INV = None
   print('functions: %d' % sum(len(v) for k, v in inv.items()
                               if not k.startswith('__')))
 
